@@ -340,6 +340,15 @@ def dispatchPy (restoreC : Bool) (p : Proc) (taskEnv : List (Nat × Nat)) (pl : 
 def dispatchUnresolved (p : Proc) : Report × Proc :=
   ({ out := [], err := [], ret := 1, val := none, exc := some 0 }, p)
 
+/-- `DefaultWorker._dispatch/_worker_proc`: what the rank process queues for one request.  The dispatcher
+    returned its tuple (`.ok r`): that tuple.  Anything in the try block raised instead - the sandbox cannot
+    be made or entered, no dispatcher for the mode, a dispatcher that refuses the request before its own
+    capturing block (`.error e`): the exception is recorded, nothing else is known, and the exit code is the one
+    the code sets for that path (`raisedExit`, read from the source by the translator) -/
+def rankResult (raisedExit : Int) : Except Nat Report → (Int × Option Nat × Option Nat)
+  | .ok r    => (r.ret, r.val, r.exc)
+  | .error e => (raisedExit, none, some e)
+
 /-- `_dispatch_proc/_shell`: a child process; exit code and captured output are reported as they are -/
 def dispatchProc (out err : List Nat) (exitCode : Nat) : Report :=
   { out := out, err := err, ret := exitCode, val := none, exc := none }
